@@ -173,16 +173,20 @@ func (c *cursorManager) GetCursor(ctx context.Context, streamName, cursorID stri
 		c.mu.RUnlock()
 	}
 
-	// Find the latest offset for the cursor in the log.
+	// Find the latest offset for the cursor in the log and cache it. Both are
+	// done under the lock SetCursor holds while it publishes: otherwise a
+	// SetCursor that completes between the read and the cache update would
+	// have its newer offset replaced in the cache by the older one read here.
+	c.mu.Lock()
+	defer c.mu.Unlock()
+
 	offset, err := c.getLatestCursorOffset(ctx, cursorKey, partition)
 	if err != nil {
 		return 0, status.New(codes.Internal, err.Error())
 	}
 
 	// Cache the offset.
-	c.mu.Lock()
 	c.cache.Add(string(cursorKey), offset)
-	c.mu.Unlock()
 
 	return offset, nil
 }
